@@ -121,6 +121,17 @@ CHECKS = {
             '1e-12 relative slack on bounds for log-space and NLopt optimisers (1-ulp excursions from exp(log(b)) / internal rescaling); NLopt '
             'RoundoffLimited is reported as documented (-inf, nan) and counted; small iteration budgets; quick tier k<=3.',
             'DESIGN.md §3 C12'),
+    'C13': ('model_checking',
+            'exhaustive enumeration of every single-SNP configuration (genotype vectors x ancestral-allele / FILTER / allele forms) through the real VCF and SNP-table parsers, of every answer of the subsampling and bootstrap random draws (environment enumeration), of every chunk size, and of every spectrum with <=3 SNPs, against an independent counter over the genotype matrix',
+            'Synthetic VCFs containing every genotype vector over {0/0,0/1,1/1,./.,0|1,1|0} for layouts of 1-3 populations are parsed by the real '
+            'code; each SNP entry (calls, alleles, outgroup) and the spectra for all projection vectors, polarised and folded, are compared with '
+            'an exact rational oracle, and totals with the number of usable SNPs. numpy.random.choice / random.choices are replaced by stubs that '
+            'return every possible answer in turn, so subsampling and bootstraps are decided for every draw. Chunking is checked for every chunk '
+            'size (partition, one window per chunk, chunk spectra sum to the whole). S, pi, theta_W, Tajima D, theta_L are compared with brute '
+            'force on haplotype matrices and Fst with Weir-Cockerham from allele counts, for every spectrum with <=3 (Fst: 2) SNPs.',
+            'DP/AD-based call exclusion is outside the enumerated space (not defined by the property); the format lattice is crossed with a '
+            'covering subset of genotype vectors, the plain format with all of them.',
+            'DESIGN.md §3 C13'),
     'C14': ('model_checking',
             'exhaustive enumeration of a format lattice (shape x position x value alphabet x precision x gz; masks x labels x comments x format flags x folding; memory layouts; pickle protocols) with real write+read round trips',
             'Every member of the lattice is written with the real writer and read back with the real reader (and the cross pairs: generic array '
